@@ -685,3 +685,88 @@ def rule_log_poles(ctx, rep, rid: str) -> None:
                 rep.bad(rid, key, f"{f.qual} builds a Math native from the host's {norm(hostfn)} through {h.qual}, which has no result -Infinity under a test that the argument equals {pole}: the host raises ValueError at the pole exactly as it does below it, so Math.{norm(hostfn).split('.')[-1]}({pole}) comes out NaN (ECMAScript: -Infinity)", f"{f.module.rel}:{c.lineno}")
     if n < 3:
         raise AnalysisError(f"{rid}: only {n} natives over the host logarithms found")
+
+
+# ---- host truthiness of a value whose legitimate values can be falsy -------------------------------------
+_RECEIVER_PARAMS = ("this_val", "this_arg", "this_value", "this", "receiver", "thisArg")
+
+
+def _truth_tests(f: Func, name: str) -> List[ast.AST]:
+    """Places where `name` is tested by host truthiness: `not name`, `if name`, `name or x`, `name and x`,
+    `x if name else y`."""
+    out = []
+    for n in f.own_nodes():
+        if isinstance(n, ast.UnaryOp) and isinstance(n.op, ast.Not) and isinstance(n.operand, ast.Name) and n.operand.id == name:
+            out.append(n)
+        elif isinstance(n, ast.BoolOp) and any(isinstance(v, ast.Name) and v.id == name for v in n.values[:-1]):
+            out.append(n)
+        elif isinstance(n, (ast.If, ast.While, ast.IfExp)) and isinstance(n.test, ast.Name) and n.test.id == name:
+            out.append(n)
+    return out
+
+
+def rule_receiver_not_truth_tested(ctx, rep, rid: str) -> None:
+    """0, "", false and null are receivers like any other (the engine is strict: f.call(0) sees this === 0).  A
+    `this` parameter that uses None for "no receiver" has to be tested with `is None`: `this_val or UNDEFINED`
+    replaces every falsy receiver."""
+    rep.rule(rid, "in the interpreter's call protocol, a parameter that carries the receiver (`this`) of a call is never tested by host truthiness (`this_val or UNDEFINED`, `if not this_val`) in a function that some call site hands a receiver to: the missing receiver is None and is tested with `is None`; 0, '', false and null are receivers", floor=3)
+    n = 0
+    for f in ctx.tree.funcs:
+        if isinstance(f.node, ast.Lambda) or f.module.name not in ("vm", "context", "values"):
+            continue
+        for pname in [p for p in f.params() if p in _RECEIVER_PARAMS]:
+            n += 1
+            key = f"{f.qual}:{pname}"
+            tests = _truth_tests(f, pname)
+            if not tests:
+                rep.ok(rid, key)
+                continue
+            # harmless where every call site passes the constant None for it
+            idx = [p for p in f.params() if p != "self"].index(pname)
+            sites = [cs for cs in ctx.cg.sites if any(t is f for t in cs.targets)]
+            real = False
+            for cs in sites:
+                a = cs.call.args[idx] if idx < len(cs.call.args) else None
+                for kw in cs.call.keywords:
+                    if kw.arg == pname:
+                        a = kw.value
+                if a is not None and not (isinstance(a, ast.Constant) and a.value is None):
+                    real = True
+            if not real and sites:
+                rep.ok(rid, key, {"note": "every call site passes None: the truth test only sees the sentinel"})
+                continue
+            t0 = tests[0]
+            rep.bad(rid, key, f"{f.qual} tests its receiver parameter `{pname}` by host truthiness (`{short(t0, 40)}`, line {t0.lineno}): 0, '', false and null are falsy for the host, so f.call(0) runs with this === undefined; the missing receiver is None and wants `is None`", f"{f.module.rel}:{t0.lineno}")
+    if n < 3:
+        raise AnalysisError(f"{rid}: only {n} receiver parameters found in the call protocol")
+
+
+def rule_key_not_truth_tested(ctx, rep, rid: str, only=None) -> None:
+    """A loop variable that is None for "no key" (array elements) and a property name otherwise must be tested with
+    `is None`: the empty string is a property name."""
+    rep.rule(rid, "a loop variable that holds either None (no key) or a property name is never tested by host truthiness: '' is a property name, and `if not k` writes the member {'': 1} like an array element", floor=0)
+    n = 0
+    for f in ctx.tree.funcs:
+        if isinstance(f.node, ast.Lambda) or f.module.name not in ("vm", "context", "values"):
+            continue
+        if only is not None and not only(f.qual):
+            continue
+        for loop in f.own_nodes():
+            if not (isinstance(loop, ast.For) and isinstance(loop.target, ast.Tuple) and isinstance(loop.iter, ast.Name)):
+                continue
+            srcs = [a.value for a in f.own_nodes() if isinstance(a, ast.Assign) and any(isinstance(t, ast.Name) and t.id == loop.iter.id for t in a.targets)]
+            for pos, el in enumerate(loop.target.elts):
+                if not isinstance(el, ast.Name):
+                    continue
+                none_here = any(isinstance(x, ast.Tuple) and pos < len(x.elts) and isinstance(x.elts[pos], ast.Constant) and x.elts[pos].value is None for v in srcs for x in ast.walk(v))
+                keys_here = any("_properties" in norm(v) or ".items()" in norm(v) or ".keys()" in norm(v) for v in srcs)
+                if not (none_here and keys_here):
+                    continue
+                n += 1
+                key = f"{f.qual}:{el.id}"
+                tests = [t for t in _truth_tests(f, el.id)]
+                if tests:
+                    rep.bad(rid, key, f"{f.qual} tests `{el.id}` (None for an array element, the property name otherwise) by host truthiness (`{short(tests[0], 30)}`, line {tests[0].lineno}): the empty string is a property name, so the member {{'': 1}} is treated as if it had no key", f"{f.module.rel}:{tests[0].lineno}")
+                else:
+                    rep.ok(rid, key)
+    rep.ok(rid, "none-or-key-variables", {"examined": n})
